@@ -18,7 +18,7 @@ theorem runFile_other_all {k : Nat} {f : FileDesc} {P : Prop} (ht : f.info.trans
   | zero => intro s prio cur now ticks h hc; exact ⟨h, hc, fun _ _ _ _ e => (by cases e)⟩
   | succ n ih =>
     intro s prio cur now ticks h hc
-    have key : ∀ (s1 : State) (cur1 : Option Cur), Kept k f P s1 → (∀ c, cur1 = some c → c.key ≠ k) →
+    have key : ∀ (fr : Bool) (s1 : State) (cur1 : Option Cur), Kept k f P s1 → (∀ c, cur1 = some c → c.key ≠ k) →
         let r := (if !s1.fdtQueue.isEmpty then (s1, cur1, Out.none) else
           match cur1 with
           | none => (s1, none, Out.none)
@@ -28,10 +28,14 @@ theorem runFile_other_all {k : Nat} {f : FileDesc} {P : Prop} (ht : f.info.trans
             | some f =>
               if gateBlocked f now then (s1, cur1, Out.none) else
               match encRead f.nSym c.enc (canStop f && !s1.files.contains c.key) with
-              | (none, _) => runFile n (transferDoneFile s1 c.key now) prio none now ticks
+              | (none, _) =>
+
+                if fr then (transferDoneFile s1 c.key now, none, Out.none)
+
+                else runFile n (transferDoneFile s1 c.key now) prio none now ticks
               | (some (idx, b), e) => (pktStep s1 prio c.key now idx b, some { c with enc := e }, Out.pkt prio c.key idx b))
         Kept k f P r.1 ∧ (∀ c, r.2.1 = some c → c.key ≠ k) ∧ (∀ p t i b, r.2.2 = Out.pkt p t i b → t ≠ k) := by
-      intro s1 cur1 h1 hc1
+      intro fr s1 cur1 h1 hc1
       simp only []
       split
       · exact ⟨h1, hc1, fun _ _ _ _ e => (by cases e)⟩
@@ -44,7 +48,13 @@ theorem runFile_other_all {k : Nat} {f : FileDesc} {P : Prop} (ht : f.info.trans
           · split
             · exact ⟨h1, hc1, fun _ _ _ _ e => (by cases e)⟩
             · split
-              · exact ih _ prio none now ticks (h1.done c.key now (hc1 c rfl)) (fun _ e => by cases e)
+              · cases fr with
+                | true =>
+                  simp only [if_true]
+                  exact ⟨h1.done c.key now (hc1 c rfl), fun _ e => (by cases e), fun _ _ _ _ e => (by cases e)⟩
+                | false =>
+                  simp only [Bool.false_eq_true, if_false]
+                  exact ih _ prio none now ticks (h1.done c.key now (hc1 c rfl)) (fun _ e => by cases e)
               · refine ⟨h1.updOther c.key tickInfo (fun _ => rfl) (hc1 c rfl) rfl Iff.rfl, ?_, ?_⟩
                 · intro c' e'
                   simp only [Option.some.injEq] at e'
@@ -54,7 +64,7 @@ theorem runFile_other_all {k : Nat} {f : FileDesc} {P : Prop} (ht : f.info.trans
                   rw [← e'.2.1]; exact hc1 c rfl
     unfold runFile
     cases cur with
-    | some c => exact key s (some c) h hc
+    | some c => exact key false s (some c) h hc
     | none =>
       simp only []
       cases hg : getNextFile s prio now ticks with
@@ -67,11 +77,23 @@ theorem runFile_other_all {k : Nat} {f : FileDesc} {P : Prop} (ht : f.info.trans
             · simp at hg; exact hg.symm
             · simp at hg
           subst this
-          exact key s' none h (fun _ e => by cases e)
+          exact key true s' none h (fun _ e => by cases e)
         | some t =>
           obtain ⟨h1, hne⟩ := h.getNextFile ht hg
-          exact key s' (some (startCur s' t)) h1 (fun c e => by
-            simp only [Option.some.injEq] at e; rw [← e]; exact hne)
+          simp only []
+          cases ho : openFailed true s' (some (startCur s' t)) with
+          | none =>
+            exact key true s' (some (startCur s' t)) h1 (fun c e => by
+              simp only [Option.some.injEq] at e; rw [← e]; exact hne)
+          | some kf =>
+            obtain ⟨k', f'⟩ := kf
+            obtain ⟨_, c, e1, e2, _, _⟩ := openFailed_some ho
+            simp only [Option.some.injEq] at e1
+            subst e1
+            have hk : k' = t := e2.symm
+            subst hk
+            simp only []
+            exact ⟨h1.done k' now hne, fun _ e => (by cases e), fun _ _ _ _ e => (by cases e)⟩
 
 /-- round robin progress -/
 theorem readQueue_rr {k : Nat} {f : FileDesc} {P : Prop} (ht : f.info.transferring = true) (c : Cur) (j n : Nat)
